@@ -2419,3 +2419,148 @@ def k_set_variable(E, tier):
     if kinds2 != {"up", "root"}:
         rec.add("define_global: both the recursive and the root case present (%s)" % sorted(kinds2), {"verdict": "inconclusive", "per_solver": {}, "time_s": 0})
     return rec
+
+
+def k_comment_dispatch(E, tier):
+    """C36: the loud-comment arm of handle_item: in expanded style every comment reached is evaluated
+    (interpolation) and pushed to the destination; in compressed style exactly the `/*!` comments are kept."""
+    items = E.load_enum("sass/item.rs", "Item", "sass::item::Item")
+    f = E.find(name="handle_item")
+    rec = Rec("handle_item (comment arm)", f, E)
+    ctx = E.ctx()
+    text = sym.Opaque("SassString", "comment", ctx)
+    item = sym.Agg("sass::item::Item", "Comment", {"0": text}, items.index("Comment"))
+    compressed = ctx.fresh_scalar("bool", "is_compressed")
+    preserved = ctx.fresh_scalar("bool", "starts_with_bang")
+
+    def ev(nm, ret=None):
+        def h(ex, st, c, a, d):
+            e = sym.Event(nm, a, None, len(st.pc))
+            e.rargs = [ex.resolve_ref(st, x) for x in a]
+            r = ret(d) if ret else ctx.fresh_value(d or "()", "ret." + nm)
+            e.result = r
+            st.events.append(e)
+            return r
+        return h
+
+    def m_eval(ex, st, c, a, d):
+        ok = st.fork()
+        err = st.fork()
+        v = sym.Opaque("CssString", "evaluated", ctx)
+        e = sym.Event("evaluate", a, v, len(st.pc))
+        e.rargs = [ex.resolve_ref(st, x) for x in a]
+        ok.events.append(e)
+        return [(ok, sym.Agg(d, "Ok", {"0": v}, 0)), (err, sym.Agg(d, "Err", {"0": sym.Opaque("Error", "e", ctx)}, 1))]
+
+    models = [
+        (r"^Format::is_compressed$", lambda ex, st, c, a, d: compressed),
+        (r"::starts_with::<char>$|::starts_with::<", lambda ex, st, c, a, d: preserved),
+        (r"^SassString::evaluate$", m_eval),
+        (r"push_comment$", ev("push_comment", lambda d: sym.Unit())),
+    ] + BASE_MODELS
+    ex = sym.Executor(ctx, models=models, feasibility=E.feasibility(ctx), max_paths=4000)
+    paths = [p for p in ex.run(f, [sym.Ref("val", item), sym.Opaque("&mut dyn CssDestination", "dest", ctx),
+                                   sym.Opaque("ScopeRef", "scope", ctx), sym.Opaque("&mut Context", "fctx", ctx)]) if p.status == "return"]
+    rec.paths = len(paths)
+    seen = set()
+    for i, p in enumerate(paths):
+        pushes = [e for e in p.events if e.callee == "push_comment"]
+        evals = [e for e in p.events if e.callee == "evaluate"]
+        is_ok = isinstance(p.ret, sym.Agg) and p.ret.variant == "Ok"
+        if not is_ok:
+            continue
+        if pushes:
+            seen.add("kept")
+            r = E.decide(ctx, p.pc + ["(and %s (not %s))" % (compressed.term, preserved.term)])
+            rec.add("path %d: a comment is emitted only in expanded style or when it starts with `!`" % i, r)
+            ok = len(evals) == 1 and evals[0].rargs[0] is text
+            rec.add("path %d: what is emitted is the evaluated (interpolated) text of this comment" % i,
+                    {"verdict": "holds" if ok else "violated", "per_solver": {"structural": "identity"}, "time_s": 0})
+        else:
+            seen.add("dropped")
+            # dropped: must be compressed and not a /*! comment
+            uses_bang = any("starts_with" in e.callee for e in p.events) or preserved.term in " ".join(p.pc)
+            r = E.decide(ctx, p.pc + ["(not %s)" % compressed.term])
+            rec.add("path %d: a comment is dropped only in compressed style" % i, r)
+            o = rec.add("path %d: a dropped comment is not a `/*!` comment (the code drops every comment in compressed style)" % i,
+                        {"verdict": "holds" if uses_bang else "violated", "per_solver": {"structural": "the decision does not look at the comment text"}, "time_s": 0})
+            if not uses_bang:
+                o["region_excluded"] = "holds"
+    if "kept" not in seen:
+        rec.add("an emitting path exists", {"verdict": "inconclusive", "per_solver": {}, "time_s": 0})
+    return rec
+
+
+def k_error_and_drop(E, tier):
+    """C21: (a) the `@error` arm of handle_item always fails the compilation with the evaluated message;
+    (b) the Drop impls of the rule / at-rule / @media destinations commit their content to the parent; a
+    failure of that commit can only be printed to stderr (Drop cannot return it) — recorded finding."""
+    items = E.load_enum("sass/item.rs", "Item", "sass::item::Item")
+    f = E.find(name="handle_item")
+    rec = Rec("handle_item (@error arm) and destination Drop impls", f, E)
+    ctx = E.ctx()
+    msgv = sym.Opaque("sass::value::Value", "message", ctx)
+    pos = sym.Opaque("SourcePos", "pos", ctx)
+    item = sym.Agg("sass::item::Item", "Error", {"0": msgv, "1": pos}, items.index("Error"))
+
+    def m_eval(ex, st, c, a, d):
+        ok = st.fork()
+        err = st.fork()
+        v = sym.Opaque("css::value::Value", "evaluated", ctx)
+        e = sym.Event("evaluate", a, v, len(st.pc))
+        e.rargs = [ex.resolve_ref(st, x) for x in a]
+        ok.events.append(e)
+        return [(ok, sym.Agg(d, "Ok", {"0": v}, 0)), (err, sym.Agg(d, "Err", {"0": sym.Opaque("Error", "e", ctx)}, 1))]
+
+    ex = sym.Executor(ctx, models=[(r"^sass::value::Value::evaluate$", m_eval)] + BASE_MODELS, feasibility=E.feasibility(ctx), max_paths=4000)
+    paths = [p for p in ex.run(f, [sym.Ref("val", item), sym.Opaque("&mut dyn CssDestination", "dest", ctx),
+                                   sym.Opaque("ScopeRef", "scope", ctx), sym.Opaque("&mut Context", "fctx", ctx)]) if p.status == "return"]
+    rec.paths += len(paths)
+    for i, p in enumerate(paths):
+        is_err = isinstance(p.ret, sym.Agg) and p.ret.variant == "Err"
+        rec.add("@error path %d: the compilation fails (no path returns Ok)" % i,
+                {"verdict": "holds" if is_err else "violated", "per_solver": {"structural": repr(p.ret)[:60]}, "time_s": 0})
+    if not paths:
+        rec.add("@error arm reached", {"verdict": "inconclusive", "per_solver": {}, "time_s": 0})
+    # Drop impls
+    drops = [g for g in E.funcs if re.match(r"^cssdest::<impl at .*>::drop$", g.name)]
+    if len(drops) != 3:
+        raise sym.Unsupported("expected the three destination Drop impls, found %d" % len(drops))
+    for g in drops:
+        who = g.params[0][1].replace("&mut ", "")
+        ctx2 = E.ctx()
+        me = sym.Opaque(who, "self", ctx2)
+
+        def commit(nm):
+            def h(ex, st, c, a, d, nm=nm):
+                ok = st.fork()
+                err = st.fork()
+                e = sym.Event(nm, a, None, len(st.pc))
+                ok.events.append(e)
+                err.events.append(sym.Event(nm + "-failed", a, None, len(st.pc)))
+                return [(ok, sym.Agg(d, "Ok", {"0": sym.Unit()}, 0)), (err, sym.Agg(d, "Err", {"0": sym.Opaque("Invalid", "err", ctx2)}, 1))]
+            return h
+
+        def m_print(ex, st, c, a, d):
+            st.events.append(sym.Event("eprint", a, None, len(st.pc)))
+            return sym.Unit()
+
+        models2 = [(r"::push_item$", commit("commit")), (r"::commit_rule$", commit("commit")), (r"^std::io::_eprint$", m_print)] + BASE_MODELS
+        ex2 = sym.Executor(ctx2, models=models2, feasibility=E.feasibility(ctx2), max_paths=4000)
+        p2 = [p for p in ex2.run(g, [sym.Ref("val", me)]) if p.status == "return"]
+        rec.paths += len(p2)
+        n_commit = 0
+        swallowed = 0
+        for p in p2:
+            names = [e.callee for e in p.events]
+            if "commit" in names or "commit-failed" in names:
+                n_commit += 1
+            if "commit-failed" in names:
+                swallowed += 1
+        rec.add("%s::drop: the collected content is committed to the parent on every path" % who,
+                {"verdict": "holds" if n_commit == len(p2) and p2 else "violated", "per_solver": {"structural": "%d of %d paths" % (n_commit, len(p2))}, "time_s": 0})
+        if swallowed:
+            o = rec.add("%s::drop: a failing commit makes the compilation fail (Drop can only print it to stderr)" % who,
+                        {"verdict": "violated", "per_solver": {"structural": "%d path(s) continue after Err" % swallowed}, "time_s": 0})
+            o["region_excluded"] = "holds"
+    return rec
